@@ -396,6 +396,9 @@ pub enum E {
     NewS(String),
     NewV(Vec<i64>),
     Tup(i32, String),
+    /// fields of one type: a positional mix-up still type-checks
+    Pair(i64, i64),
+    Trio(String, String, String),
     St { a: i32, b: Option<String> },
     Nest(Box<Inner>),
 }
@@ -561,7 +564,9 @@ pub fn g_inner(t: &mut Tape) -> Inner {
     Inner { x: g_i32(t), y: if t.chance(1, 2) { Some(g_string(t)) } else { None } }
 }
 pub fn g_e(t: &mut Tape) -> E {
-    match t.below(8) {
+    match t.below(10) {
+        8 => E::Pair(gen_int(t), gen_int(t)),
+        9 => E::Trio(g_string(t), g_string(t), g_string(t)),
         0 => E::Unit,
         1 => E::Other,
         2 => E::New(g_i32(t)),
